@@ -154,7 +154,7 @@ def registered_in_code(c, wd, rows_list):
                     while sysm.pool.queue:
                         sysm.pool.take('W1')
                         sysm.pool.apply('W1')
-            except ValueError as ex:
+            except Exception as ex:      # refused visibly (which exception type is not part of the property)
                 interp = LocKindOk(row)
                 if interp:
                     problems.append('registration refused: %r' % (ex,))
